@@ -134,7 +134,48 @@ class C08(TraceCheck):
         return c
 
     def is_nontrivial(self, tr):
-        return bool(tr.probes.get("region_left_by_return") or tr.probes.get("region_left_by_exception"))
+        return bool(tr.probes.get("region_left_by_return") or tr.probes.get("region_left_by_exception")
+                    or tr.probes.get("abort_inside_block_api"))
+
+    def gen(self, rng, i, tier):
+        if i % 5 == 4:
+            # block-API histories with an abort at the n-th backend seam call: an exception raised inside
+            # _endif/_else/_elif/_endwhile/_endfor (the merge of tracked variables) must leave the guard
+            # state of before the block
+            cfg = {"backend": rng.choice(W.DICT_BACKENDS), "bitlength": rng.choice([8, 16]), "resolution": 2,
+                   "max_nesting": rng.choice([1, 2]), "p_try": 0.0, "fxp": False}
+            plan = BlockGen(rng, cfg).plan()
+            return {"plan": plan, "faults": {"abort_seam": 1 + int(rng.random() ** 1.5 * 150)}, "block": True}
+        return TraceCheck.gen(self, rng, i, tier)
+
+    def run(self, case):
+        if not case.get("block"):
+            return TraceCheck.run(self, case)
+        tr = T.TraceRun(case["plan"], case["faults"], props=()).run()
+        viol = []
+        rt = tr.w.runtime
+        fired = bool(tr.probes.get("abort_seam_fired"))
+        if fired and tr.outcome == "raised:InjectedFault" and tr.exc_plan_line in tr.gen.api_lines:
+            depth = tr.gen.api_lines[tr.exc_plan_line]
+            in_exit = any(f in ("exit", "end") for f in tr.exc_lib_frames)
+            tr.probe("abort_inside_block_api")
+            if in_exit:
+                tr.probe("abort_inside_block_exit")
+            if depth == 0 and in_exit:
+                g0, ie0, one0 = tr.w.initial
+                bad = []
+                if rt.guard is not g0:
+                    bad.append("guard")
+                if rt.LinComb.ONE is not rt.LinComb.ONE_SAFE:
+                    bad.append("ONE")
+                if bool(rt._ignore_errors):
+                    bad.append("ignore_errors")
+                if bad:
+                    viol.append({"property": "C08", "oracle": "guard_leak",
+                                 "site": {"how": "exception", "fields": "+".join(bad), "where": "block_exit"},
+                                 "detail": "exception raised while a top-level block was being closed (%s): %s "
+                                           "not restored" % ("/".join(tr.exc_lib_frames[-3:]), bad)})
+        return self.result(tr, case, viol)
 
 
 E.register(C08())
